@@ -17,11 +17,13 @@ open Apollo.Guards Apollo.Det Apollo.Generated
 /-- `validation/variable.rs :: validate_unused_variables :: for … in unused_vars`: covered by
     `unused_variables_deterministic` below. -/
 def siteUnusedVars : Nat := 144054494329241
-/-- `schema/validation.rs :: validate_schema :: for name in builtin_scalars.used_and_undefined`: each name is
-    inserted under its own key into `schema.types`, so the *set* of types is order-independent (C16
-    theorems); the relative order of two restored scalars is not. Unreachable from text: the schema
-    builder always defines all five built-in scalars, so `used_and_undefined` is empty (the harness checks
-    that on every input); reachable only by editing a `Schema` in memory. -/
+/-- `schema/validation.rs :: validate_schema :: for name in builtin_scalars.used_and_undefined`: modelled as
+    `finalTypes` (Model/Determinism.lean, correspondence stream `restore`). Unreachable from text: the schema
+    builder always defines all five built-in scalars, so `used_and_undefined` is empty and the loop does nothing
+    (`builtin_restore_deterministic_from_text`; the premise is an oracle of the harness on every input). Reachable
+    only by editing a `Schema` in memory: then the SET of types is still order-independent
+    (`builtin_restore_same_types`) but the relative order of two restored scalars is not
+    (`builtin_restore_order_dependent_in_memory`). -/
 def siteBuiltinScalars : Nat := 236218586377126
 -- (`apollo-smith implements_graph.rs :: topo_order_parents_first :: self.by_name.keys()`, code
 -- 114203739016255, was a third site: the fallback taken when the `implements` graph has a cycle. It made
@@ -91,5 +93,98 @@ theorem unused_variables_deterministic (pre : List (Key × Nat)) (file : Nat) (v
 #guard validateUnused [(some (1, 0), 99)] 1 [⟨1, 6⟩, ⟨2, 15⟩, ⟨3, 24⟩] (· == 2) id
      == validateUnused [(some (1, 0), 99)] 1 [⟨1, 6⟩, ⟨2, 15⟩, ⟨3, 24⟩] (· == 2) List.reverse
 example : ([⟨1, 6⟩, ⟨2, 15⟩, ⟨3, 24⟩] : List VarDef).map (·.offset) = [6, 15, 24] := rfl
+
+/-! ### the built-in scalar site (`siteBuiltinScalars`) -/
+
+theorem recordRefs_undefined (builtins types : List Nat) (hall : ∀ b ∈ builtins, b ∈ types) :
+    ∀ (refs : List Nat) (s : Scalars), (recordRefs builtins types refs s).usedUndefined = s.usedUndefined
+  | [], _ => rfl
+  | r :: rest, s => by
+    unfold recordRefs
+    by_cases hb : builtins.contains r = true
+    · have ht : types.contains r = true := by simpa using hall r (by simpa using hb)
+      simp only [hb, ht, if_true]
+      exact recordRefs_undefined builtins types hall rest _
+    · simp only [hb, Bool.false_eq_true, if_false]
+      exact recordRefs_undefined builtins types hall rest s
+
+/-- **Unreachable from text.** When `schema.types` defines every built-in scalar — which the schema builder
+    guarantees for every schema built from text (checked by the harness on every input:
+    `builtin-scalar-missing-after-build`) — `used_and_undefined` stays empty, the loop over it does nothing, and the
+    resulting type map does not depend on the iteration order of the `HashSet`, whatever references validation records. -/
+theorem builtin_restore_deterministic_from_text (builtins types refs : List Nat) (o1 o2 : List Nat → List Nat)
+    (h1 : ∀ l, (o1 l).Perm l) (h2 : ∀ l, (o2 l).Perm l) (hall : ∀ b ∈ builtins, b ∈ types) :
+    finalTypes builtins types refs o1 = finalTypes builtins types refs o2 := by
+  unfold finalTypes
+  have hu := recordRefs_undefined builtins types hall refs ⟨[], []⟩
+  simp only [hu]
+  have e1 : o1 [] = [] := List.Perm.eq_nil (h1 [])
+  have e2 : o2 [] = [] := List.Perm.eq_nil (h2 [])
+  rw [e1, e2]
+
+theorem mem_insertSet (x y : Nat) (l : List Nat) : y ∈ insertSet x l ↔ y ∈ l ∨ y = x := by
+  unfold insertSet
+  by_cases h : l.contains x = true
+  · simp only [h, if_true]
+    constructor
+    · exact Or.inl
+    · rintro (h1 | rfl)
+      · exact h1
+      · simpa using h
+  · have h' : x ∉ l := by simpa using h
+    simp [h']
+
+theorem nodup_insertSet (x : Nat) (l : List Nat) (h : l.Nodup) : (insertSet x l).Nodup := by
+  unfold insertSet
+  by_cases hc : l.contains x = true
+  · simp only [hc, if_true]; exact h
+  · simp only [hc, Bool.false_eq_true, if_false]
+    rw [List.nodup_append]
+    refine ⟨h, by simp, ?_⟩
+    intro a ha b hb e
+    have : b = x := by simpa using hb
+    subst this; subst e
+    exact hc (by simpa using ha)
+
+theorem mem_restoreAll : ∀ (l types : List Nat) (y : Nat), y ∈ restoreAll types l ↔ y ∈ types ∨ y ∈ l
+  | [], types, y => by simp [restoreAll]
+  | n :: rest, types, y => by
+    rw [restoreAll, mem_restoreAll rest, mem_insertSet]
+    simp only [List.mem_cons]
+    constructor
+    · rintro ((h | h) | h)
+      · exact Or.inl h
+      · exact Or.inr (Or.inl h)
+      · exact Or.inr (Or.inr h)
+    · rintro (h | h | h)
+      · exact Or.inl (Or.inl h)
+      · exact Or.inl (Or.inr h)
+      · exact Or.inr h
+
+theorem nodup_restoreAll : ∀ (l types : List Nat), types.Nodup → (restoreAll types l).Nodup
+  | [], _, h => h
+  | n :: rest, types, h => nodup_restoreAll rest _ (nodup_insertSet n types h)
+
+/-- **In general (a `Schema` edited in memory) only the SET of types is order-independent**: whatever the two
+    iteration orders, the resulting type maps have the same keys (they are permutations of each other) … -/
+theorem builtin_restore_same_types (builtins types refs : List Nat) (o1 o2 : List Nat → List Nat)
+    (h1 : ∀ l, (o1 l).Perm l) (h2 : ∀ l, (o2 l).Perm l) (hn : types.Nodup) :
+    (finalTypes builtins types refs o1).Perm (finalTypes builtins types refs o2) := by
+  unfold finalTypes
+  generalize recordRefs builtins types refs ⟨[], []⟩ = s
+  have hp : (pruneUnused builtins types s).Nodup := by
+    unfold pruneUnused
+    split
+    · exact hn
+    · exact hn.sublist List.filter_sublist
+  refine (List.perm_ext_iff_of_nodup (nodup_restoreAll _ _ hp) (nodup_restoreAll _ _ hp)).mpr ?_
+  intro y
+  rw [mem_restoreAll, mem_restoreAll, ((h1 s.usedUndefined).trans (h2 s.usedUndefined).symm).mem_iff]
+
+/-- … but their ORDER is not: two built-in scalars (0, 1) that validation pruned earlier and a later edit uses again
+    are appended in hash order. (Observed on the implementation too: the harness records
+    `inmemory_restore_type_order_differs`.) Outside C22's quantifier, which ranges over input texts. -/
+theorem builtin_restore_order_dependent_in_memory :
+    finalTypes [0, 1, 2] [9] [0, 1] id ≠ finalTypes [0, 1, 2] [9] [0, 1] List.reverse := by decide
 
 end Apollo.C22
